@@ -629,6 +629,10 @@ def replay(ctx, mod, path):
     mb, ob, err = coq_eval_cases(ctx, mod.CORR, mod.PREFIX, mod.CASE_TYPE, [t], shards=1, tag="replay")
     ctx.say("model agrees: %s; oracle accepts: %s" % (not mb, not ob))
     if ob:
+        fid = getattr(mod, "KNOWN", {}).get(ob[0][1])
+        if fid is not None and fid in known_ids(ctx.pid):
+            ctx.say("KNOWN-FINDING: property=%s %s: %s" % (ctx.pid, fid, known_ids(ctx.pid)[fid]["what"]))
+            return 0
         ctx.say("VIOLATION property=%s replay=%s" % (ctx.pid, path))
         return 1
     return 0
